@@ -380,7 +380,8 @@ func Main(t *testing.T, pkg string) {
 	seed, _ := strconv.ParseInt(os.Getenv("VERIF_SEED"), 10, 64)
 	var cells []cellReg
 	for _, c := range registry {
-		if c.pkg == pkg && c.prop == prop && (c.tiers == "both" || c.tiers == tier) {
+		race := os.Getenv("VERIF_RACE") != ""
+		if c.pkg == pkg && c.prop == prop && ((!race && (c.tiers == "both" || c.tiers == tier)) || (race && c.tiers == "race")) {
 			cells = append(cells, c)
 		}
 	}
